@@ -123,6 +123,10 @@ func NewDB(r *rand.Rand, o GenOpts) *DB {
 }
 
 // nVal is the numeric field of a line: small integers, zero often enough that whole buckets sum to 0
+// numSpellings: JSON numbers as producers write them: 64-bit ids beyond 2^53 (neighbours that one float64
+// cannot tell apart), exponents, trailing zeros, a negative zero. An extracted label carries the text of the line.
+var numSpellings = []string{"12", "100", "7", "9007199254740993", "9007199254740992", "1234567890123456789", "1234567890123456788", "1e3", "1.50", "0.10", "-0", "1E+2", "2.0"}
+
 func nVal(r *rand.Rand) int {
 	if r.Intn(4) == 0 {
 		return 0
@@ -150,11 +154,11 @@ func genLine(r *rand.Rand, o GenOpts, j int) string {
 		case 0:
 			return `{"msg":"plain","n":` + fmt.Sprint(nVal(r)) + `}`
 		case 1:
-			return `{"msg":` + Q(tokens[r.Intn(len(tokens))]) + `,"lvl2":"` + []string{"err", "info"}[r.Intn(2)] + `","n":` + fmt.Sprint(nVal(r)) + `,"nested":{"a":{"b":"deep` + fmt.Sprint(r.Intn(3)) + `"},"arr":[1,"two",{"k":"v` + fmt.Sprint(r.Intn(3)) + `"}]}}`
+			return `{"msg":` + Q(tokens[r.Intn(len(tokens))]) + `,"lvl2":"` + []string{"err", "info"}[r.Intn(2)] + `","n":` + fmt.Sprint(nVal(r)) + `,"rid":` + numSpellings[r.Intn(len(numSpellings))] + `,"nested":{"a":{"b":"deep` + fmt.Sprint(r.Intn(3)) + `"},"arr":[1,"two",{"k":"v` + fmt.Sprint(r.Intn(3)) + `"}]}}`
 		case 2:
 			return `{"msg":"x","flag":true,"ratio":2.5,"nested":{"a":{"b":"deep0"}}}`
 		default:
-			return `{"msg":` + Q(tokens[r.Intn(len(tokens))]+" "+tokens[r.Intn(len(tokens))]) + `,"lvl2":"` + []string{"err", "info", "dbg"}[r.Intn(3)] + `","n":` + fmt.Sprint(nVal(r)) + `,"nested":{"a":{"b":"deep` + fmt.Sprint(r.Intn(3)) + `"},"arr":[1,"two",{"k":"v1"}]},"user id":"u` + fmt.Sprint(r.Intn(3)) + `"}`
+			return `{"msg":` + Q(tokens[r.Intn(len(tokens))]+" "+tokens[r.Intn(len(tokens))]) + `,"lvl2":"` + []string{"err", "info", "dbg"}[r.Intn(3)] + `","n":` + fmt.Sprint(nVal(r)) + `,"rid":` + numSpellings[r.Intn(len(numSpellings))] + `,"nested":{"a":{"b":"deep` + fmt.Sprint(r.Intn(3)) + `"},"arr":[1,"two",{"k":"v1"}]},"user id":"u` + fmt.Sprint(r.Intn(3)) + `"}`
 		}
 	case o.Logfmt:
 		return fmt.Sprintf(`lvl2=%s n=%d msg="%s" path=/a/b`, []string{"err", "info", "dbg"}[r.Intn(3)], nVal(r), strings.ReplaceAll(tokens[r.Intn(12)], `"`, ``))
